@@ -3,7 +3,7 @@
    Tapes of the textbook machine are functions Z -> symbol (head at 0), compared pointwise
    (zeq / zcfg_eq / mzcfg_eq); [view] reads a Python-shaped tape object that way. *)
 From Coq Require Import List Arith ZArith Bool.
-From AV Require Import Base.Util Spec.TM Model.TM Proofs.TM.
+From AV Require Import Base.Util Spec.TM Model.TM Proofs.TM Proofs.TMOrder.
 Import ListNotations.
 
 (* TMTape(input, blank): the head is in range and the object reads as the textbook start tape *)
@@ -77,10 +77,13 @@ Theorem C03_mntm_verdict : forall m fuel w, valid_mntm m = true ->
 Proof. intros m fuel w Hv. exact (mntm_accepts_spec m Hv fuel w). Qed.
 Print Assumptions C03_mntm_verdict.
 
-(* Full breadth-first statement (not proved in full): the dequeued configurations come with depths
-   that never decrease, each is reachable in exactly its depth, and unless fuel ran out every
-   configuration reachable in fewer moves than the last dequeued one was dequeued. *)
-Definition C03_mntm_visits_reachable_statement : Prop :=
+(* Breadth-first order of the multitape simulator: the dequeued (= yielded) configurations come
+   with depths that never decrease, each is reachable in exactly its depth, and unless fuel ran
+   out every configuration reachable in fewer moves than the last dequeued one was dequeued (on a
+   rejecting end: every reachable configuration).  Proved through the queue invariant "the queue
+   holds configurations of depth d followed by configurations of depth d+1; everything of depth
+   < d has been dequeued" (Proofs/TMOrder.v, binv / bfs_order). *)
+Theorem C03_mntm_visits_reachable :
   forall m fuel w ys o, valid_mntm m = true -> mntm_stepwise m fuel w = (ys, o) ->
   exists depths : list nat, length depths = length ys /\
     (forall i c d, nth_error ys i = Some c -> nth_error depths i = Some d ->
@@ -88,13 +91,13 @@ Definition C03_mntm_visits_reachable_statement : Prop :=
     (forall i d d', nth_error depths i = Some d -> nth_error depths (S i) = Some d' -> d <= d') /\
     (o <> Err Fuel -> forall k z, mreach m k (mt_start m w) z ->
        (o = Err Reject \/ S k <= last depths 0) -> exists c, In c ys /\ mzcfg_eq (abs_mcfg c) z).
+Proof. intros m fuel w ys o Hv E. exact (mntm_visits_bfs_order m Hv w fuel ys o E). Qed.
+Print Assumptions C03_mntm_visits_reachable.
 
-(* proved part: every dequeued configuration is reachable; an accepting run returns a dequeued,
-   reachable, final configuration without transitions; a rejecting run has dequeued every reachable
-   configuration (up to tape equality) and none of them is final.
-   Missing w.r.t. the statement above: the depth bookkeeping (non-decreasing order) and
-   completeness below the last depth on accepting runs. *)
-Theorem C03_mntm_visits_reachable_partial : forall m fuel w ys o, valid_mntm m = true ->
+(* how a run ends: at most fuel configurations are dequeued; an accepting run returns a dequeued
+   final configuration; a rejecting run has dequeued every reachable configuration (up to tape
+   equality) and none of them is final *)
+Theorem C03_mntm_run_ends : forall m fuel w ys o, valid_mntm m = true ->
   mntm_stepwise m fuel w = (ys, o) ->
   length ys <= fuel /\
   (forall c, In c ys -> exists k, mreach m k (mt_start m w) (abs_mcfg c)) /\
@@ -110,7 +113,7 @@ Proof.
     + intro Hf. apply (S3 k z Hr). split; [exact Hf|]. apply (valid_final_no_delta m Hv). exact Hf.
     + exact (mntm_reject_visits_all m w fuel ys E k z Hr).
 Qed.
-Print Assumptions C03_mntm_visits_reachable_partial.
+Print Assumptions C03_mntm_run_ends.
 
 (* a deterministic table read as DTM, as NTM and as one-tape MNTM gives the same verdict for
    every three fuels on which the three runs return *)
